@@ -80,8 +80,23 @@ def gen_data(rng, tier):
             elif k == 8 and JREL and b + 1 < nblocks: ins.append(Instruction(rng.choice(JREL), Jump(rng.randrange(b + 1, nblocks), True), line_number=line()))
             else: ins.append(Instruction(rng.choice(NOARGOPS), line_number=line()))
         blocks.append(tuple(ins))
+    # table entries that no instruction uses (what decoding leaves in `_additional_args` after dead-code elimination, or
+    # what a user lists by hand): they only have to end up in the tables; in particular unused *cells* shift every free
+    # variable operand (seeded change C03-r5), and an additional line adds an entry after the last instruction
+    extra = []
+    if rng.random() < .35:
+        if is_fn or cells or frees:
+            extra += [Cellvar('u%d' % i) for i in range(rng.choice([0, 1, 1, 2, 3]))]
+        extra += [Name('un%d' % i) for i in range(rng.choice([0, 0, 1, 2]))]
+        extra += [Constant(rng.choice([None, 'unused', 7.5, (1, 2)]))] * rng.choice([0, 0, 1])
+        if localnames or is_fn:
+            extra += [Varname('uv%d' % i) for i in range(rng.choice([0, 0, 1]))] if is_fn else []
+        rng.shuffle(extra)
+    kw = {}
+    if rng.random() < .15 and (V310 or lines_mode != 'none-mix'):
+        kw['_additional_line'] = cd.AdditionalLine(line=cur[0] + rng.choice([0, 1, 5]), additional_offsets=())
     d = CodeData(blocks=tuple(blocks), filename='<c03>', first_line_number=first, name='g', stacksize=rng.randrange(1, 5),
-                 type=tp, freevars=tuple(frees), future_annotations=rng.random() < .2)
+                 type=tp, freevars=tuple(frees), future_annotations=rng.random() < .2, _additional_args=tuple(extra), **kw)
     return d
 
 
